@@ -145,9 +145,15 @@ async def run_impl(flt, t0, mode, calls, rng):
     cur = [None]
     anomalies = []
 
+    passthrough = ("oc", "db", "th", "cu")
+    cur_obj = [None]
+
     def recorder(k, nxt):
         async def cb(v):
             logs[k].append((cur[0], Clock.t, enc_value(v)))
+            # "passed on unmodified": behind pass-through filters the callback gets the very object the filter was called with
+            if all(st.split(":")[0] in passthrough for st in stages[: k + 1]) and v is not cur_obj[0]:
+                anomalies.append(f"stage {k} call {cur[0]}: the delivered object is not the object the filter was called with")
             if nxt is not None:
                 return await nxt(v)
             return None
@@ -166,6 +172,7 @@ async def run_impl(flt, t0, mode, calls, rng):
         Clock.t = t / TICK
         cur[0] = i
         x = py_value(v, as_int, shared)
+        cur_obj[0] = x
         try:
             await f(x)
         except Exception as e:  # noqa: BLE001
@@ -457,7 +464,7 @@ def check_cases(res, cases, rng):
             obs = rows
         if anomalies:
             res.fail("spec", inp, "each delivery happens once, at the clock reading of its call", anomalies,
-                     "delivery time / multiplicity")
+                     "delivery time / multiplicity / the delivered object is the object passed in")
         if ci in bad_judge:
             res.fail("spec", inp, dict(model=model), dict(outcomes=obs, judge=bad_judge[ci]),
                      "C20.spec fails on what the implementation delivered (stage, verdict): %s" % bad_judge[ci])
@@ -516,6 +523,122 @@ def boundary_probe(res):
                          + ("more than" if changed else "no more than") + " the tolerance is " + ("not delivered" if changed else "delivered"))
 
 
+# ---------------------------------------------------------------- several filter objects around ONE callback
+def build_chain(flt, cb):
+    nxt = cb
+    for st in reversed(flt.split(">")):
+        nxt = make_filter(st, nxt)
+    return nxt
+
+
+async def run_instances(flt, t0, n_inst, icalls):
+    """the same factory expression evaluated n_inst times around the SAME callback object (one logger subscribed to
+    several events); icalls: (inst, t, val, as_int).  -> outcome text per call"""
+    got = {}
+    cur = [None]
+
+    async def cb(v):
+        got.setdefault(cur[0], []).append(enc_value(v))
+
+    Clock.t = t0 / TICK
+    insts = [build_chain(flt, cb) for _ in range(n_inst)]
+    outs = []
+    for i, (k, t, v, as_int) in enumerate(icalls):
+        Clock.t = t / TICK
+        cur[0] = i
+        try:
+            await insts[k](py_value(v, as_int, None))
+            d = got.get(i, [])
+            outs.append("-" if not d else "d" + d[0] if len(d) == 1 else "dd")
+        except ValueError:
+            outs.append("!")
+        except Exception as e:  # noqa: BLE001
+            outs.append("!" + type(e).__name__)
+    return outs
+
+
+def gen_instances(rng):
+    flt = gen_base(rng, rng.choice(["oc", "oc", "db", "th", "de", "ag", "cu"]))
+    if rng.random() < 0.35:
+        flt = flt + ">" + gen_base(rng, rng.choice(["oc", "th", "db", "cu"]))
+    n_inst = rng.choice([2, 2, 3])
+    t0 = 0
+    n = rng.randint(3, 14)
+    # coinciding streams: the instances see (nearly) the same values, in turn
+    base, _ = (gen_nums if rng.random() < 0.7 else gen_falsy if rng.random() < 0.5 else gen_strs)(rng, n)
+    if flt.startswith("ag") or ">ag" in flt:
+        base, _ = gen_nums(rng, n)
+    times = gen_times(rng, n, t0)
+    icalls = []
+    for (v, as_int), t in zip(base, times):
+        order_ = list(range(n_inst))
+        rng.shuffle(order_)
+        for k in order_:
+            if rng.random() < 0.85:
+                icalls.append((k, t, v, as_int))
+    return flt, t0, n_inst, icalls
+
+
+def instances_text(flt, t0, n_inst, icalls):
+    return " ".join(["instances", flt, str(t0), str(n_inst)] + [f"{k}={t}@{v}{'i' if a else ''}" for k, t, v, a in icalls])
+
+
+def parse_instances(text):
+    w = text.split()
+    icalls = []
+    for c in w[4:]:
+        k, rest = c.split("=")
+        t, v = rest.split("@")
+        a = v.endswith("i")
+        icalls.append((int(k), int(t), v[:-1] if a else v, a))
+    return w[1], int(w[2]), int(w[3]), icalls
+
+
+def check_instances(res, cases):
+    clock_patch = time.monotonic
+    time.monotonic = lambda: Clock.t
+    try:
+        async def all_impl():
+            return [await run_instances(*c) for c in cases]
+
+        impl = vloop.run(all_impl())
+    finally:
+        time.monotonic = clock_patch
+    answers = driver_batch(" ".join(["c20m", lean_filter(c[0], c[1])] + [f"{k}={t}@{v}" for k, t, v, _ in c[3]]) for c in cases)
+    judge_reqs, judge_idx = [], []
+    for ci, (c, outs) in enumerate(zip(cases, impl)):
+        flt, t0, n_inst, icalls = c
+        if ">" in flt:
+            continue
+        for k in range(n_inst):
+            cs = [(t, v) for (kk, t, v, _) in icalls if kk == k]
+            os_ = [o for (kk, _, _, _), o in zip(icalls, outs) if kk == k]
+            if any(o.startswith("!") and o != "!" or o.startswith("d?") or o == "dd" for o in os_):
+                judge_reqs.append("c20judge-unparsable")
+            else:
+                judge_reqs.append(" ".join(["c20judge", lean_filter(flt, t0)] + [f"{t}@{v}" for t, v in cs] + ["|"] + os_))
+            judge_idx.append((ci, k))
+    verdicts = driver_batch(judge_reqs)
+    bad = {}
+    for (ci, k), v in zip(judge_idx, verdicts):
+        if v != "pass":
+            bad.setdefault(ci, []).append((k, v))
+    for ci, (c, outs, ans) in enumerate(zip(cases, impl, answers)):
+        text = instances_text(*c)
+        model = [] if ans == "." else ans.split(";")
+        res.case(text, len(c[3]) >= 4 and "-" in model and any(o.startswith("d") for o in model))
+        res.count("label:instances")
+        res.count("instances:%d" % c[2])
+        for st in c[0].split(">"):
+            res.count("filter:" + st.split(":")[0])
+        inp = dict(case=text, label="instances")
+        if ci in bad:
+            res.fail("spec", inp, dict(model=model), dict(outcomes=outs, judge=bad[ci]),
+                     "a filter object does not filter its own calls as a fresh filter would (instance, verdict): %s" % bad[ci])
+        elif outs != model:
+            res.fail("corr", inp, model, outs, "independent filter machines and filters.py differ")
+
+
 def run(ctx):
     rng = random.Random(ctx["seed"] * 7919 + 20)
     res = Result("C20")
@@ -527,11 +650,16 @@ def run(ctx):
                 "and a non-delivery (or a raise)")
     cases = []
     for fn, ln in load_corpus("C20"):
-        cases.append((parse_case(ln), "corpus"))
+        if not ln.startswith("instances "):
+            cases.append((parse_case(ln), "corpus"))
     cases.extend(gen_cases(rng, ctx["tier"]))
     if ctx.get("max_cases"):
         cases = cases[: ctx["max_cases"]]
     check_cases(res, cases, rng)
+    if not ctx.get("max_cases"):
+        inst_cases = [parse_instances(ln) for _, ln in load_corpus("C20") if ln.startswith("instances ")]
+        inst_cases += [gen_instances(rng) for _ in range(600 if ctx["tier"] == "quick" else 12000)]
+        check_instances(res, inst_cases)
     boundary_probe(res)
     res.notes.append("numbers are multiples of 1/16 below 10^6: differences are exact in binary64 and the relative tolerance of "
                      "math.isclose (1e-9*10^6 < 0.1) is inert; decimal inputs whose exact difference is the binary64 tolerance (or one ulp around it) "
@@ -547,6 +675,9 @@ def replay(ctx):
     res.rule = "replay of one recorded call sequence"
     if f["input"].get("t") == "boundary":
         boundary_probe(res)
+        return res
+    if f["input"]["case"].startswith("instances "):
+        check_instances(res, [parse_instances(f["input"]["case"])])
         return res
     check_cases(res, [(parse_case(f["input"]["case"]), f["input"].get("label", "replay"))], random.Random(0))
     return res
